@@ -78,7 +78,11 @@ PLANS["C20"] = {
         {"name": "lock-native", "kind": "lock_native", "profile": "release", "timeout": 600,
          "runs": [["--histories", 3000, "--threads", 8, "--locks", 3, "--ops", 30, "--vary"],
                   ["--histories", 1, "--threads", 16, "--locks", 1, "--ops", 12500],
-                  ["--histories", 60, "--threads", 16, "--locks", 4, "--ops", 200]]},
+                  ["--histories", 60, "--threads", 16, "--locks", 4, "--ops", 200],
+                  # closed bursts: persistent workers released together, one or two calls each per round
+                  ["--histories", 2, "--bursts", 150000, "--threads", 6, "--locks", 1, "--per-round", 1],
+                  ["--histories", 1, "--bursts", 60000, "--threads", 12, "--locks", 2, "--per-round", 2],
+                  ["--histories", 1, "--bursts", 100000, "--threads", 3, "--locks", 1, "--per-round", 1]]},
         {"name": "lock-miri", "kind": "lock_miri", "shards": 4, "seeds_per_shard": 2, "timeout": 900,
          "args": ["--histories", 1, "--threads", 3, "--locks", 1, "--ops", 6]},
     ],
@@ -87,7 +91,11 @@ PLANS["C20"] = {
          "runs": [["--histories", 60000, "--threads", 8, "--locks", 3, "--ops", 30, "--vary"],
                   ["--histories", 4, "--threads", 16, "--locks", 1, "--ops", 80000],
                   ["--histories", 2000, "--threads", 16, "--locks", 4, "--ops", 200],
-                  ["--histories", 20000, "--threads", 2, "--locks", 1, "--ops", 10]]},
+                  ["--histories", 20000, "--threads", 2, "--locks", 1, "--ops", 10],
+                  ["--histories", 12, "--bursts", 400000, "--threads", 6, "--locks", 1, "--per-round", 1],
+                  ["--histories", 6, "--bursts", 200000, "--threads", 12, "--locks", 2, "--per-round", 2],
+                  ["--histories", 6, "--bursts", 400000, "--threads", 3, "--locks", 1, "--per-round", 1],
+                  ["--histories", 4, "--bursts", 200000, "--threads", 16, "--locks", 4, "--per-round", 3]]},
         {"name": "lock-miri", "kind": "lock_miri", "shards": 16, "seeds_per_shard": 4, "timeout": 3000,
          "args": ["--histories", 1, "--threads", 3, "--locks", 2, "--ops", 6]},
         {"name": "lock-tsan", "kind": "lock_tsan", "timeout": 3000,
@@ -213,7 +221,9 @@ RULES["C19"] = ("one case = a random secret key (incl. 1..5 and just below the g
 RULES["C20"] = ("a history = T threads (2..16) each applying read-modify-write closures of varying duration (yield / spin / sleep 0-50us) to 1..4 StdLocks; unique ids, call/return "
                "stamps from one global counter; the offline checker demands a single total order per lock consistent with every observed predecessor and with real time. "
                "Native: thousands of short histories plus long ones; Miri: one schedule per seed (data races, UB and deadlocks reported by the interpreter); thorough adds a "
-               "ThreadSanitizer build. Non-trivial/distinct = distinct final order of thread ids (measured per run).")
+               "ThreadSanitizer build. Closed bursts: persistent workers released together round after round (1-3 calls each, then a barrier), so a caller parked on a free "
+               "lock cannot be rescued by later traffic; a stall is declared on progress (no call returned for 20 s while all other workers idle), then probed with an unrelated call. "
+               "Non-trivial/distinct = distinct final order of thread ids (measured per run).")
 RULES["C17"] = ("one round = a random predicate, program, contract, solution and solution set (every 50th round at the limits: 1000 nodes/edges, 100 predicates, "
                "100 solutions), each with a random permutation and a single-field / near-collision perturbation; all pre-hash byte strings of a run are bucketed "
                "to look for two distinct values hashing the same bytes. Non-trivial = predicate with >= 2 nodes+edges, contract with >= 2 predicates, every solution; "
